@@ -977,3 +977,47 @@ def rule_no_shared_default(db: ProgramDB) -> List[Instance]:
     out.append(inst("NO-SHARED-DEFAULT", HOLDS, "src/entity_query_language", "package[parameter defaults]",
                     f"{n_fn} functions and lambdas, {n_def} parameter defaults examined"))
     return out
+
+
+# ---------------------------------------------------------------------------------- EXC-EXIT-ENV
+def rule_exception_exit_env(db: ProgramDB) -> List[Instance]:
+    """An evaluation that ends with an exception (user code raised; `the` found a second solution) leaves its pipeline SUSPENDED: the
+    generators below the one that raised are held by the frames of the traceback (and, for `the`, by the rows the exception carries), and
+    are finalised when the exception is released - in the caller's environment.  A user generator among them that holds a
+    `with symbolic_mode():` open across its yields then runs that block's exit there: it restores the mode it found when it was entered
+    (off, inside the evaluation) in the middle of the caller's block.  Closing the result iterator (`results.close()` under the override,
+    MODE-OFF-DOM) covers the iterator that is abandoned, not the one that raised: a finished generator has nothing left to close.
+    Two remedies are accepted: the public entry releases the frames of the traceback under its own mode override
+    (`traceback.clear_frames` in an exception handler inside `symbolic_mode(mode=None …)`), or the exit of `symbolic_mode` restores only
+    what is still its own (the restore is guarded by a comparison of the current state with what the block installed)."""
+    out = []
+    sm = db.fn("symbolic:symbolic_mode")
+    guarded_restore = False
+    for t in [x for x in own_nodes(sm.node) if isinstance(x, ast.Try) and x.finalbody]:
+        for st in t.finalbody:
+            for i in [x for x in ast.walk(st) if isinstance(x, ast.If)]:
+                if any(isinstance(c, ast.Call) and call_name(c) in ("_set_symbolic_mode",) for b in i.body for c in ast.walk(b)) and \
+                        any(isinstance(c, ast.Compare) and any(isinstance(o, (ast.Is, ast.IsNot, ast.Eq, ast.NotEq)) for o in c.ops) for c in ast.walk(i.test)):
+                    guarded_restore = True
+    n = 0
+    for fn in public_entries(db):
+        clears = False
+        for h in [x for x in own_nodes(fn.node) if isinstance(x, ast.ExceptHandler)] + [x for x in own_nodes(fn.node) if isinstance(x, ast.Try) and x.finalbody]:
+            body = h.body if isinstance(h, ast.ExceptHandler) else h.finalbody
+            for w in [x for st in body for x in ast.walk(st) if isinstance(x, ast.With)]:
+                under = any(isinstance(c, ast.Call) and call_name(c) == "symbolic_mode" and any(k.arg == "mode" and isinstance(k.value, ast.Constant) and k.value.value is None
+                                                                                               for k in c.keywords) for it in w.items for c in ast.walk(it.context_expr))
+                if under and any(isinstance(c, ast.Call) and (dotted(c.func) or "").endswith("clear_frames") for b in w.body for c in ast.walk(b)):
+                    clears = True
+        n += 1
+        ok = clears or guarded_restore
+        out.append(inst("EXC-EXIT-ENV", HOLDS if ok else VIOLATION, fn, f"{fn.short}[exception exit: what the evaluation left suspended is finalised in its own environment]",
+                        ("the frames of the traceback are released under the evaluation's own mode override" if clears else
+                         "the exit of symbolic_mode restores only what is still its own") if ok else
+                        "an exception leaves the generators below the one that raised suspended in the traceback; nothing releases them under the evaluation's mode override, so "
+                        "a user generator that holds `with symbolic_mode():` open across a yield (a property used through flatten) is finalised when the caller drops the exception "
+                        "- inside the caller's block, whose mode its exit switches off: `with symbolic_mode(): try: q.evaluate() except MultipleSolutionFound: pass; "
+                        "in_symbolic_mode()` is False", line=fn.lineno))
+    if n == 0:
+        raise AnalysisError("no public evaluation entry found")
+    return out
